@@ -174,7 +174,7 @@ def cli(x, p):
     x.check('writep8 succeeds', And(exc is None, rc == 0),
             info=repr((rc, exc))[:120])
     x.check('exactly in_fmt.p8 is written',
-            fs.opened_for_write == ['/w/in_fmt.p8'])
+            clikit.only_changed(fs, '/w/in_fmt.p8'))
     x.check('the input keeps its bytes', fs.files['/w/in.p8'] == src)
     if '/w/in_fmt.p8' in fs.files:
         x.check('re-writing the re-read cart gives a byte-identical file',
